@@ -44,7 +44,15 @@ def correspondence(ctx, model_ok=True):
     n_gen = 1200 if ctx.thorough else 180
     gen = progs.generated(rng, PROFILES, n_gen)
     scripts = progs.corpus_scripts()
-    allp = progs.corpus_dir("C10") + [(n, s, m) for n, s, m, _ in gen] + scripts
+    # plus every constructed-oracle scenario of the other checks and the collector probes: the programs in which stack discipline,
+    # fiber switching and the moment of collection matter most
+    import probes_gc
+    from props import c06, c07, c08, c09, c18
+    extra = [("c06:%d" % i, "\n".join(b) + "\n", {}) for i, (b, _) in enumerate(c06.BODIES)]
+    extra += [("c07:" + n, s_, {}) for n, s_, _ in c07.SCENARIOS] + [("c08:" + n, s_, {}) for n, s_, _, _ in c08.SCENARIOS]
+    extra += [("c09:" + n, s_, {}) for n, s_, _, _ in c09.SCENARIOS] + [("c18:" + n, s_, {}) for n, s_, _ in c18.SCENARIOS]
+    extra += probes_gc.all_probes()
+    allp = progs.corpus_dir("C10") + extra + [(n, s, m) for n, s, m, _ in gen] + scripts
     results = {}
     for profile, feats in configs(ctx.thorough):
         try:
